@@ -26,6 +26,20 @@ Open Scope N_scope.
 
 Definition rfc1071 (buf : list N) (init : N) : N := fold16 (init + sum16 buf).
 
+(* RFC 1071 section 1, literally: 16-bit one's-complement addition (add, then add the carry out of bit 15 back
+   in), word by word. This is the executable specification the correspondence evaluates on the implementation's
+   outputs; proofs/Csum_proofs.v shows it equals rfc1071. *)
+Definition ocadd (a w : N) : N := let s := a + w in if s <? 65536 then s else s - 65535.
+
+Fixpoint textbook_from (acc : N) (l : list N) : N :=
+  match l with
+  | [] => acc
+  | [a] => ocadd acc (a * 256)                      (* odd tail: pad with a zero byte on the right *)
+  | a :: b :: r => textbook_from (ocadd acc (a * 256 + b)) r
+  end.
+
+Definition textbook (buf : list N) (init : N) : N := textbook_from init buf.
+
 (* ---------------------------------------------------------------------------------------------- *)
 (** * common machine-level pieces *)
 
@@ -141,38 +155,49 @@ Definition gv_reduce (acc : N) : N :=
 Definition gv_take (cond : bool) (k : nat) (st : N * list N) (f : N -> list N -> N) : N * list N :=
   if cond then (f (fst st) (firstn k (snd st)), skipn k (snd st)) else st.
 
+(* len(buf) < 8: plain big-endian adds into the uint64 accumulator *)
+Definition gv_small (acc : N) (buf : list N) : N :=
+  let st := (acc, buf) in
+  let st := if (4 <=? length (snd st))%nat
+            then (w64 (w64 (fst st + sum16 (firstn 2 (snd st))) + sum16 (firstn 2 (skipn 2 (snd st)))), skipn 4 (snd st))
+            else st in
+  let st := gv_take (2 <=? length (snd st))%nat 2 st (fun a p => w64 (a + sum16 p)) in
+  let st := gv_take (1 <=? length (snd st))%nat 1 st (fun a p => w64 (a + sum16 p)) in
+  gv_reduce (fst st).
+
+(* from `if sliceAddr(buf)&2 != 0` to the last tail; [addr] is the address of the first byte of (snd st) *)
+Definition gv_main (addr : N) (st : N * list N) : N :=
+  let a2 := N.testbit addr 1 in
+  let st := gv_take a2 2 st (fun a p => w64 (a + le_val p)) in            (* acc += the uint16 loaded from p *)
+  let addr := if a2 then addr + 2 else addr in
+  let a4 := N.testbit addr 2 in
+  let st := gv_take a4 4 st (fun a p => w64 (a + le_val p)) in            (* acc += the uint32 loaded from p *)
+  (* 64 bytes per trip, then 32/16/8/4/2/1; every group closes with Add64(acc, 0, carry) *)
+  let n64 := (length (snd st) / 64)%nat in
+  let acc := fold_left (fun a blk => add_chain a (words64 blk)) (blocks 64 n64 (snd st)) (fst st) in
+  let st := (acc, skipn (64 * n64) (snd st)) in
+  let st := gv_take (32 <=? length (snd st))%nat 32 st (fun a p => add_chain a (words64 p)) in
+  let st := gv_take (16 <=? length (snd st))%nat 16 st (fun a p => add_chain a (words64 p)) in
+  let st := gv_take (8 <=? length (snd st))%nat 8 st (fun a p => add_chain a (words64 p)) in
+  let st := gv_take (4 <=? length (snd st))%nat 4 st (fun a p => add_chain a [le_val p]) in
+  let st := gv_take (2 <=? length (snd st))%nat 2 st (fun a p => add_chain a [le_val p]) in
+  let st := gv_take (1 <=? length (snd st))%nat 1 st (fun a p => add_chain a [le_val p]) in
+  fst st.
+
 Definition gvisor_csum (addr : N) (buf : list N) (init : N) : N :=
   let acc := w16 init in
-  if (length buf <? 8)%nat then
-    (* short buffers: plain big-endian adds, no carries possible *)
-    let st := (acc, buf) in
-    let st := if (4 <=? length (snd st))%nat
-              then (w64 (w64 (fst st + sum16 (firstn 2 (snd st))) + sum16 (firstn 2 (skipn 2 (snd st)))), skipn 4 (snd st))
-              else st in
-    let st := gv_take (2 <=? length (snd st))%nat 2 st (fun a p => w64 (a + sum16 p)) in
-    let st := gv_take (1 <=? length (snd st))%nat 1 st (fun a p => w64 (a + sum16 p)) in
-    gv_reduce (fst st)
+  if (length buf <? 8)%nat then gv_small acc buf
   else
+    (* acc = uint64(bswapIfLittleEndian32(uint32(acc))): sum in little-endian space, swap back at the end *)
     let acc := bswap32 (w32 acc) in
-    (* align to 8 bytes *)
-    let odd := N.odd addr in
-    let st := (acc, buf) in
-    let st := if odd then (w64 (bswap32 (w32 (fst st)) + swap16 (hd 0 (snd st))), skipn 1 (snd st)) else st in
-    let addr := if odd then addr + 1 else addr in
-    let a2 := N.testbit addr 1 in
-    let st := gv_take a2 2 st (fun a p => w64 (a + le_val p)) in
-    let addr := if a2 then addr + 2 else addr in
-    let a4 := N.testbit addr 2 in
-    let st := gv_take a4 4 st (fun a p => w64 (a + le_val p)) in
-    (* 64 bytes per trip, then 32/16/8/4/2/1 *)
-    let n64 := (length (snd st) / 64)%nat in
-    let acc := fold_left (fun a blk => add_chain a (words64 blk)) (blocks 64 n64 (snd st)) (fst st) in
-    let st := (acc, skipn (64 * n64) (snd st)) in
-    let st := gv_take (32 <=? length (snd st))%nat 32 st (fun a p => add_chain a (words64 p)) in
-    let st := gv_take (16 <=? length (snd st))%nat 16 st (fun a p => add_chain a (words64 p)) in
-    let st := gv_take (8 <=? length (snd st))%nat 8 st (fun a p => add_chain a (words64 p)) in
-    let st := gv_take (4 <=? length (snd st))%nat 4 st (fun a p => add_chain a [le_val p]) in
-    let st := gv_take (2 <=? length (snd st))%nat 2 st (fun a p => add_chain a [le_val p]) in
-    let st := gv_take (1 <=? length (snd st))%nat 1 st (fun a p => add_chain a [le_val p]) in
-    let acc16 := swap16 (gv_reduce (fst st)) in
-    if odd then swap16 acc16 else acc16.
+    if N.odd addr then
+      (* odd start address: undo the swap, add buf[0] as a high byte, and swap the result once more at the end *)
+      let acc := w64 (bswap32 (w32 acc) + swap16 (hd 0 buf)) in
+      swap16 (swap16 (gv_reduce (gv_main (addr + 1) (acc, skipn 1 buf))))
+    else
+      swap16 (gv_reduce (gv_main addr (acc, buf))).
+
+(* ---------------------------------------------------------------------------------------------- *)
+(** * checksum.Checksum (checksum_amd64.go): `if hasAVX2 { return checksumAVX2(..) }; return gvisor Checksum(..)` *)
+Definition checksum_go (has_avx2 : bool) (addr : N) (buf : list N) (init : N) : N :=
+  if has_avx2 then asm_csum buf init else gvisor_csum addr buf init.
